@@ -44,7 +44,7 @@ def run(ctx):
         vlib.require_model_ok(r, "Ante_t.cfg")
         ctx.add_tlc(r, "exhaustive, 4 submissions, all properties")
     ecfg = "Ante_qe.cfg" if quick else "Ante_te.cfg"
-    n = 100 if quick else 1500
+    n = 60 if quick else 1500
     out = {}
 
     def edges():
@@ -93,7 +93,7 @@ def run(ctx):
             k = cls(b[-1])
             per[k] = per.get(k, 0) + 1
             (first if per[k] <= 3 else later).append(b)
-        behs = must + first + later[:max(0, 700 - len(must) - len(first))]
+        behs = must + first + later[:max(0, 450 - len(must) - len(first))]
     ctx.cov["edges_replayed"] = len(behs)
     seen = {}
     for b in behs:
